@@ -1,3 +1,30 @@
-From MT Require Import Infer.
-Theorem placeholder_c04 : True. Proof. exact I. Qed.
-Print Assumptions placeholder_c04.
+(* C04 — inferred types admit every observed value, for every TypedDict size limit.
+   Only statements, `exact`, Print Assumptions and non-vacuity examples live here. *)
+From MT Require Import Types Infer GetTypeSound.
+
+(* Soundness, for EVERY class hierarchy table h, EVERY limit k, EVERY finite collection of
+   (well-formed: dict keys distinct) values: whenever inference returns a type, every observed
+   value is a member of it. *)
+Theorem infer_sound :
+  forall (h : hierarchy) (k : nat) (vs : list value) (t : ty) (v : value),
+    forallb wf_valueb vs = true -> infer k vs = Some t -> In v vs ->
+    member (subclass h) v t = true.
+Proof. exact infer_sound_hier. Qed.
+Print Assumptions infer_sound.
+
+(* The inferred type is well formed (TypedDict field names pairwise distinct, required and
+   optional disjoint) — the invariant make_typed_dict's assert needs. *)
+Theorem infer_well_formed :
+  forall (k : nat) (vs : list value) (t : ty),
+    forallb wf_valueb vs = true -> infer k vs = Some t -> TypesFacts.wf_ty t.
+Proof. exact infer_wf_closed. Qed.
+Print Assumptions infer_well_formed.
+
+(* Non-vacuity: a concrete heterogeneous collection meets the premises and infers a TypedDict
+   with a required and an optional key. *)
+Example ex_c04_nonvacuous :
+  let vs := [VDict [(VStr "a", VAtom cInt 1); (VStr "b", VStr "x")];
+             VDict [(VStr "a", VAtom cNone 0)]] in
+  forallb wf_valueb vs = true /\
+  infer 2 vs = Some (TTypedDict [("a"%string, TUnion [TCls cInt; TCls cNone])] [("b"%string, TCls cStr)]).
+Proof. vm_compute. split; reflexivity. Qed.
